@@ -1,5 +1,388 @@
 package main
 
-func runCheck(prop, repo, verif, tier, work string, tmo int, verbose bool) int {
-	return 2
+import (
+	"bufio"
+	"encoding/json"
+	"fmt"
+	"os"
+	"path/filepath"
+	"sort"
+	"strconv"
+	"strings"
+	"time"
+)
+
+type knownEntry struct {
+	Kind       string // known | fixed
+	Property   string
+	Obligation string
+	Rest       string
+}
+
+func loadKnown(path string) []knownEntry {
+	var out []knownEntry
+	fh, err := os.Open(path)
+	if err != nil {
+		return nil
+	}
+	defer fh.Close()
+	sc := bufio.NewScanner(fh)
+	for sc.Scan() {
+		l := strings.TrimSpace(sc.Text())
+		if l == "" || strings.HasPrefix(l, "#") {
+			continue
+		}
+		var e knownEntry
+		switch {
+		case strings.HasPrefix(l, "known:"):
+			e.Kind = "known"
+			l = strings.TrimSpace(l[6:])
+		case strings.HasPrefix(l, "fixed:"):
+			e.Kind = "fixed"
+			l = strings.TrimSpace(l[6:])
+		default:
+			continue
+		}
+		for _, f := range strings.Fields(l) {
+			if strings.HasPrefix(f, "property=") {
+				e.Property = f[9:]
+			}
+			if strings.HasPrefix(f, "obligation=") {
+				e.Obligation = f[11:]
+			}
+		}
+		e.Rest = l
+		out = append(out, e)
+	}
+	return out
+}
+
+func hasProp(ps []string, p string) bool {
+	for _, x := range ps {
+		if x == p {
+			return true
+		}
+	}
+	return false
+}
+
+type Evidence struct {
+	PropertyID  string         `json:"property_id"`
+	Tier        string         `json:"tier"`
+	Seed        int            `json:"seed"`
+	Level       string         `json:"level"`
+	Coverage    map[string]any `json:"coverage"`
+	Assumptions []string       `json:"assumptions"`
+	WallS       float64        `json:"wall_s"`
+	Violations  int            `json:"violations"`
+}
+
+func runCheck(prop, repo, verif, tier, work string, tmo int, verbose bool, updateBaseline bool) int {
+	t0 := time.Now()
+	seed, _ := strconv.Atoi(os.Getenv("VERIF_SEED"))
+	defer os.RemoveAll(work)
+	prog, err := loadProgram(repo)
+	if err != nil {
+		fmt.Fprintf(os.Stderr, "govc: cannot load %s: %v\n", repo, err)
+		return 2
+	}
+	cs, err := loadContracts(repo)
+	if err != nil {
+		fmt.Fprintf(os.Stderr, "govc: contracts: %v\n", err)
+		return 2
+	}
+	var keys []string
+	for k, c := range cs.ByKey {
+		if c.hasProp(prop) {
+			keys = append(keys, k)
+		}
+	}
+	sort.Strings(keys)
+	if len(keys) == 0 {
+		fmt.Fprintf(os.Stderr, "govc: no contract carries property %s\n", prop)
+		return 2
+	}
+	known := loadKnown(filepath.Join(verif, "KNOWN_FINDINGS.txt"))
+	var baseline map[string][]string
+	if b, err := os.ReadFile(filepath.Join(verif, "baseline_obligations.json")); err == nil {
+		json.Unmarshal(b, &baseline)
+	}
+	replayDir := filepath.Join(verif, "replays", prop)
+	os.MkdirAll(replayDir, 0o755)
+
+	type failure struct {
+		name   string
+		rep    *FuncReport
+		o      *ObligSummary
+		reason string
+	}
+	var failures []failure
+	var all []*ObligSummary
+	seen := map[string]bool{}
+	var funcs []string
+	notes := map[string]bool{}
+	trusted := map[string]bool{}
+	nObl, nDis, nCover, nCoverOK := 0, 0, 0, 0
+	solverTime := 0.0
+	unknownCalls := map[string]int{}
+	for _, k := range keys {
+		con := cs.ByKey[k]
+		if con.Trusted {
+			trusted["trusted contract (assumed, body not verified): "+strings.TrimPrefix(k, modPath+"/")] = true
+			continue
+		}
+		rep := verifyOne(prog, cs, con, filepath.Join(work, sanitize(k)), tmo, 16, verbose)
+		funcs = append(funcs, strings.TrimPrefix(k, modPath+"/"))
+		for _, n := range rep.Notes {
+			notes[n] = true
+		}
+		for n, c := range rep.Unknown {
+			unknownCalls[n] += c
+		}
+		for _, u := range rep.Used {
+			if uc := cs.ByKey[u]; uc != nil && uc.Trusted {
+				trusted["trusted contract (assumed, body not verified): "+strings.TrimPrefix(u, modPath+"/")] = true
+			}
+		}
+		short := strings.TrimPrefix(strings.TrimPrefix(k, modPath+"/"), "x/")
+		if rep.Missing {
+			failures = append(failures, failure{name: short + "/contract.target_missing", rep: rep, reason: "the function named by the contract no longer exists"})
+			continue
+		}
+		for _, e := range rep.Errs {
+			failures = append(failures, failure{name: short + "/engine.out_of_subset", rep: rep, reason: e})
+		}
+		for _, o := range rep.Obligs {
+			if !hasProp(o.Props, prop) {
+				continue
+			}
+			seen[o.Name] = true
+			all = append(all, o)
+			solverTime += o.Seconds
+			switch o.Status {
+			case "cover_ok":
+				nCover++
+				nCoverOK++
+			case "cover_failed":
+				nCover++
+				failures = append(failures, failure{name: o.Name, rep: rep, o: o, reason: "vacuity: precondition or invariant unsatisfiable"})
+			case "discharged":
+				nObl++
+				nDis++
+			case "failed":
+				nObl++
+				failures = append(failures, failure{name: o.Name, rep: rep, o: o, reason: "solver: " + o.FailKind})
+			}
+		}
+	}
+	// contract-derived obligations of the baseline must still be generated
+	for _, bn := range baseline[prop] {
+		if seen[bn] {
+			continue
+		}
+		kind := ""
+		if i := strings.LastIndex(bn, "/"); i >= 0 {
+			kind = bn[i+1:]
+		}
+		if strings.HasPrefix(kind, "ensures.") || strings.HasPrefix(kind, "loop") || strings.HasPrefix(kind, "cover.") || strings.HasPrefix(kind, "frame.") {
+			dup := false
+			for _, f := range failures {
+				if strings.HasPrefix(bn, strings.SplitN(f.name, "/", 3)[0]) && (strings.HasSuffix(f.name, "target_missing") || strings.HasSuffix(f.name, "out_of_subset")) {
+					dup = true
+				}
+			}
+			if !dup {
+				nObl++
+				failures = append(failures, failure{name: bn, reason: "obligation of the committed baseline is no longer generated (unreachable exit, removed loop or contract)"})
+			}
+		}
+	}
+
+	violations := 0
+	knownHit := []string{}
+	var lines []string
+	for _, f := range failures {
+		isKnown := false
+		for _, ke := range known {
+			if ke.Kind == "known" && ke.Property == prop && ke.Obligation == f.name {
+				isKnown = true
+				lines = append(lines, fmt.Sprintf("KNOWN-FINDING: property=%s %s", prop, ke.Rest))
+				knownHit = append(knownHit, f.name)
+			}
+		}
+		if isKnown {
+			continue
+		}
+		violations++
+		rr := ReplayResult{Obligation: f.name, Property: prop, How: f.reason}
+		if f.rep != nil {
+			rr.Function = f.rep.Key
+		}
+		if f.o != nil {
+			rr.FailKind = f.o.FailKind
+			rr.Trace = f.o.FailTrace
+			rr.Solver = f.o.Output
+			rr.Query = f.o.FailFile
+		}
+		reproduced := false
+		if f.o != nil && f.rep != nil && f.o.Status == "failed" {
+			reproduced = tryReplay(prog, cs, f.rep, f.o, repo, verif, work, &rr)
+		}
+		rfile := filepath.Join(replayDir, sanitize(strings.ReplaceAll(f.name, "/", "__"))+".json")
+		if rr.Query != "" {
+			// keep the failing query next to the replay file
+			if b, err := os.ReadFile(rr.Query); err == nil {
+				qf := strings.TrimSuffix(rfile, ".json") + ".smt2"
+				os.WriteFile(qf, b, 0o644)
+				rr.Query = qf
+			}
+		}
+		writeJSON(rfile, rr)
+		suffix := ""
+		if !reproduced {
+			suffix = " no-failing-input-found"
+		}
+		lines = append(lines, fmt.Sprintf("VIOLATION property=%s replay=%s obligation=%s%s", prop, rfile, f.name, suffix))
+	}
+	// evidence
+	var samples []any
+	for i, o := range all {
+		if i < 12 || o.Status == "failed" {
+			samples = append(samples, map[string]any{"name": o.Name, "status": o.Status, "paths": o.Paths, "solver": o.Solver, "seconds": round3(o.Seconds), "smt_bytes": o.SMTBytes})
+		}
+	}
+	var tb []string
+	for n := range trusted {
+		tb = append(tb, n)
+	}
+	var assumptions []string
+	for n := range notes {
+		if strings.HasPrefix(n, "summary:") || strings.HasPrefix(n, "A-") || strings.HasPrefix(n, "pure-and-irrelevant") {
+			tb = append(tb, n)
+		} else {
+			assumptions = append(assumptions, n)
+		}
+	}
+	for n, c := range unknownCalls {
+		assumptions = append(assumptions, fmt.Sprintf("unknown callee %s (%d call sites): result unconstrained", n, c))
+	}
+	tb = append(tb, "govc VC generator (go/ssa symbolic execution, value-semantics object store)", "solvers: z3-new 5.1.0, z3 4.8.12, cvc5 1.0.3", "Go type checker and go/ssa builder (x/tools v0.29.0)")
+	sort.Strings(tb)
+	sort.Strings(assumptions)
+	assumptions = append(assumptions, standingAssumptions...)
+	ev := Evidence{PropertyID: prop, Tier: tier, Seed: seed, Level: "proof", WallS: round3(time.Since(t0).Seconds()), Violations: violations,
+		Assumptions: assumptions,
+		Coverage: map[string]any{
+			"obligations":              nObl,
+			"discharged":               nDis,
+			"bounded_obligations":      0,
+			"checker_cmd":              fmt.Sprintf("/verif/bin/govc check %s --tier %s --repo %s", prop, tier, repo),
+			"trusted_base":             tb,
+			"functions_under_contract": funcs,
+			"samples":                  samples,
+			"solver_seconds_total":     round3(solverTime),
+			"vacuity":                  map[string]any{"cover_queries": nCover, "cover_sat": nCoverOK},
+			"known_findings_hit":       knownHit,
+			"per_query_timeout_s":      tmo,
+			"contracts_files":          relFiles(cs.Files, repo),
+		}}
+	evFile := filepath.Join(verif, "evidence", prop+".json")
+	if repo == "/repo" {
+		writeJSON(evFile, ev)
+	} else {
+		writeJSON(filepath.Join(work+"-evidence", prop+".json"), ev)
+	}
+	if updateBaseline && violations == 0 {
+		if baseline == nil {
+			baseline = map[string][]string{}
+		}
+		var names []string
+		for n := range seen {
+			names = append(names, n)
+		}
+		sort.Strings(names)
+		baseline[prop] = names
+		writeJSON(filepath.Join(verif, "baseline_obligations.json"), baseline)
+	}
+	for _, l := range lines {
+		fmt.Println(l)
+	}
+	fmt.Printf("govc: property %s: %d obligations, %d discharged, %d failures (%d known), %d functions, %.1fs\n", prop, nObl, nDis, len(failures), len(knownHit), len(funcs), time.Since(t0).Seconds())
+	if violations > 0 {
+		return 1
+	}
+	return 0
+}
+
+func relFiles(fs []string, repo string) []string {
+	var out []string
+	for _, f := range fs {
+		r, _ := filepath.Rel(repo, f)
+		out = append(out, r)
+	}
+	return out
+}
+
+func round3(f float64) float64 { return float64(int(f*1000)) / 1000 }
+
+var standingAssumptions = []string{
+	"A-rollback: baseapp discards the writes of a failed transaction / proposal handler (not verified here)",
+	"A-mem: no byte string or slice is longer than 2^63-1",
+	"A-append: append is modelled as producing a fresh backing array (capacity not modelled)",
+	"nil and empty byte strings / slices are identified (as protobuf decoding does)",
+	"termination is proved only for loops with a decreases clause",
+}
+
+// tryReplay regenerates the failing instance, looks for candidate inputs and replays them on the real code.
+func tryReplay(prog *Program, cs *ContractSet, rep *FuncReport, o *ObligSummary, repo, verif, work string, rr *ReplayResult) bool {
+	con := rep.Contract
+	fn := prog.Funcs[con.Key]
+	if fn == nil {
+		return false
+	}
+	// only ensures clauses are replayed generically
+	if !strings.Contains(o.Name, "/ensures.") {
+		rr.How += "; replay is generated for ensures clauses only"
+		return false
+	}
+	label := o.Name[strings.LastIndex(o.Name, "/ensures.")+9:]
+	var clause *Clause
+	for i := range con.Ensures {
+		l := con.Ensures[i].Label
+		if l == "" {
+			l = fmt.Sprint(i)
+		}
+		if l == label {
+			clause = &con.Ensures[i]
+		}
+	}
+	if clause == nil {
+		return false
+	}
+	rr.Clause = clause.Expr
+	x := newExec(prog, cs, fn, con)
+	func() {
+		defer func() { recover() }()
+		x.verifyFunction()
+	}()
+	wd := filepath.Join(work, "replay_"+sanitize(o.Name))
+	os.MkdirAll(wd, 0o755)
+	for _, ob := range x.obligs {
+		if ob.Name != o.Name || ob.Cover {
+			continue
+		}
+		c := x.findCandidate(ob, wd, 8)
+		if c == nil {
+			continue
+		}
+		rr.Candidate = c
+		ok, src, out := x.replayPure(repo, verif, ob, *clause, c, wd)
+		rr.TestFile, rr.TestOutput = src, out
+		if ok {
+			rr.Reproduced = true
+			rr.Trace = ob.Trace
+			return true
+		}
+	}
+	return false
 }
